@@ -127,6 +127,24 @@ def u_schedule_send(ctx, index):
     ok = getattr(fn, 'obj', None) is h.factory and getattr(getattr(fn, 'func', None), 'info', None) is not None and \
         fn.func.info.name == 'sendQueued'
     ctx.check('C07/scheduleSend/timer_runs_sendQueued', z3.BoolVal(bool(ok)))
+    # the timer may fire after the connection it was armed under has gone: it must then leave the
+    # queue alone (the datapoints wait for the next connection) -- fire it with no connection
+    if ok:
+      extra = list(h.log.of('reactor.callLater')[0][1][1:])
+      if h.protocol is not None:
+        h.protocol.cls = index.cls(PICKLE_P)
+        h.protocol.fields['connected'] = False
+      h.ip.specs[FACTORY + '.takeSomeFromQueue'] = take_spec(h)
+      h.factory.fields['connectedProtocol'] = None
+      old = h.queue.term
+      raised = None
+      try:
+        h.ip.call(fn, extra)
+      except PyRaise as e:
+        raised = e.exc
+      ctx.cover('scheduleSend/fired_after_loss')
+      ctx.check('C07/scheduleSend/timer_after_connection_loss_leaves_the_queue',
+                z3.And(z3.BoolVal(raised is None and not h.sent_strings), h.queue.term == old))
 
 
 # ---- the protocol's sendQueued -------------------------------------------------------------------
@@ -542,7 +560,7 @@ def _all_units():
                          'C07/sendDatapoint/appended_or_untouched', 'C07/sendDatapoint/no_raise', 'C09/sendDatapoint/I_bp_relay']),
     Unit('client.sendHighPriorityDatapoint', u_send_high_priority, [F + '.sendHighPriorityDatapoint'], expect_covers=['sendHP/returns'], replay=replay_client,
          native_clauses=['C07/sendHighPriorityDatapoint/jumps_the_queue_without_disturbing_it']),
-    Unit('client.scheduleSend', u_schedule_send, [F + '.scheduleSend'], expect_covers=['scheduleSend/returns'], replay=replay_client,
+    Unit('client.scheduleSend', u_schedule_send, [F + '.scheduleSend'], expect_covers=['scheduleSend/returns', 'scheduleSend/fired_after_loss'], replay=replay_client,
          native_clauses=['C07/scheduleSend/timer_runs_sendQueued', 'C09/scheduleSend/a_send_is_pending_afterwards']),
     Unit('client.protocol.sendQueued', u_proto_send_queued,
          [PROTO + '.sendQueued', PROTO + '.sendDatapointsNow', PROTO + '.resetConnectionForQualityReasons', PROTO + '.disconnect',
